@@ -1,6 +1,9 @@
 (* FsValP.v — refinement of the file-operation model of assign_confidence (Model/Fs.v) to its abstract effect (C09):
    executing the operation list on ANY directory ends, always successfully, in the directory in which the run's
-   chunk and level files are gone and its result files hold the rows and q-values the C03 model assigns to them. *)
+   chunk and level files are gone and its result files hold the rows and q-values the C03 model assigns to them.
+   With a protein level (the picked-protein step is an oracle keyed by the PSM ids of the peptide-level file): the run
+   succeeds exactly when every recorded oracle value is keyed by the peptide level this run computes, the protein-level
+   file is gone too, and the protein-level result files hold the oracle's rows, split and with q-values like every level. *)
 From Coq Require Import Lia FinFun.
 From Mokaverif Require Import Model.Base Model.Tdc Model.PinCols Model.Merge Model.Confidence Model.PinTsv Model.Fs
   Proofs.PinColsP Proofs.TdcP Proofs.ConfidenceP Proofs.FsP.
@@ -602,8 +605,8 @@ End Coll.
 
 Definition fview := fname -> option ccontent.
 
-(* the abstract effect of one collection on a directory: chunk and level files of the run are gone, the
-   result files hold (after what was there, when appending) the rows the C03 model assigns to them *)
+(* the abstract effect of one collection on a directory, run without protein level: chunk and level files of the run are
+   gone, the result files hold (after what was there, when appending) the rows the C03 model assigns to them *)
 Definition coll_effect (g : fs_cfg) (ap : bool) (cl : fs_coll) (v : fview) : fview :=
   let pfx := fc_pfx cl in
   let rows := fc_rows cl in
@@ -620,27 +623,110 @@ Definition coll_effect (g : fs_cfg) (ap : bool) (cl : fs_coll) (v : fview) : fvi
   | _ => v n
   end.
 
+(* ---- the same with the protein level ---- *)
+(* the rollup levels of a collection (level 0 = PSMs, level 1 = peptides, ...) *)
+Definition coll_levels (g : fs_cfg) (cl : fs_coll) : list (list cf_row) :=
+  cf_levels cf_row cf_score cf_lkey (fg_c g) (fg_dedup g) (fg_dedup g) (fg_nlevels g) (fc_rows cl).
+
+(* all levels that have a level file and result files: the rollup levels and, when proteins are requested, the rows the
+   picked-protein oracle returned (level number fg_nlevels g) *)
+Definition coll_all_levels (g : fs_cfg) (cl : fs_coll) : list (list cf_row) :=
+  coll_levels g cl ++ fs_prot_levels g cl.
+
+(* the key of the oracle: the PSM ids of the peptide-level file THIS run computes *)
+Definition coll_pep_ids (g : fs_cfg) (cl : fs_coll) : list Z := map cf_id (nth 1 (coll_levels g cl) []).
+
+(* the recorded oracle value of a collection belongs to this run: its key is the peptide level of this run *)
+Definition prot_key_ok (g : fs_cfg) (cl : fs_coll) : bool :=
+  if fg_proteins g
+  then match fc_prot cl with Some (ids, _) => fs_zlist_eqb (coll_pep_ids g cl) ids | None => true end
+  else true.
+
+(* chunk files and ALL level files of the run (the protein-level file NLevel (fg_nlevels g) included) are gone; result
+   files of all levels, the protein level included, hold the target / decoy side of their level *)
+Definition coll_effect_p (g : fs_cfg) (ap : bool) (cl : fs_coll) (v : fview) : fview :=
+  let pfx := fc_pfx cl in
+  let rows := fc_rows cl in
+  fun n =>
+  match n with
+  | NChunk p i e =>
+      if (p =? pfx)%Z && Bool.eqb e (fg_ext g) && (i <? length (fs_chunk_rows g rows)) then None else v n
+  | NLevel lv e => if Bool.eqb e (fg_ext g) && (lv <? fs_nres g) then None else v n
+  | NResult p d lv =>
+      if (p =? pfx)%Z && (lv <? fs_nres g) && (negb d || fg_decoys g)
+      then Some ((if ap then match v n with Some o => o | None => [] end else []) ++ side d (nth lv (coll_all_levels g cl) []))
+      else v n
+  | _ => v n
+  end.
+
+Lemma fs_zlist_eqb_eq : forall a b, fs_zlist_eqb a b = true <-> a = b.
+Proof.
+  induction a as [|x r IH]; intros [|y t]; cbn [fs_zlist_eqb]; split; intro H; try reflexivity; try discriminate.
+  - apply andb_true_iff in H. destruct H as [H1 H2]. apply Z.eqb_eq in H1. apply IH in H2. subst. reflexivity.
+  - inversion H; subst. rewrite Z.eqb_refl. cbn [andb]. apply IH. reflexivity.
+Qed.
+
+(* [prot_key_ok] in words: when a protein level is requested, the recorded key is the list of PSM ids of this run's
+   peptide level *)
+Lemma prot_key_ok_iff : forall g cl, prot_key_ok g cl = true <->
+  (fg_proteins g = true -> forall ids prows, fc_prot cl = Some (ids, prows) -> ids = coll_pep_ids g cl).
+Proof.
+  intros g cl. unfold prot_key_ok. destruct (fg_proteins g); [|split; [intros _ E; discriminate | reflexivity]].
+  destruct (fc_prot cl) as [[ids prows]|]; split.
+  - intros H _ ids' prows' E. inversion E; subst. apply fs_zlist_eqb_eq in H. symmetry. exact H.
+  - intro H. apply fs_zlist_eqb_eq. symmetry. apply (H eq_refl ids prows eq_refl).
+  - intros _ _ ids' prows' E. discriminate.
+  - reflexivity.
+Qed.
+
+Lemma fs_nres_noprot : forall g, fg_proteins g = false -> fs_nres g = fg_nlevels g.
+Proof. intros g H. unfold fs_nres. rewrite H. reflexivity. Qed.
+
+Lemma nres_ge : forall g, fg_nlevels g <= fs_nres g.
+Proof. intro g. unfold fs_nres. destruct (fg_proteins g); lia. Qed.
+
+Lemma prot_ok_noprot : forall g cl, fg_proteins g = false -> prot_ok g cl.
+Proof. intros g cl H E. congruence. Qed.
+
+Lemma prot_key_ok_noprot : forall g cl, fg_proteins g = false -> prot_key_ok g cl = true.
+Proof. intros g cl H. unfold prot_key_ok. rewrite H. reflexivity. Qed.
+
+Lemma all_levels_length : forall g cl, prot_ok g cl -> length (coll_all_levels g cl) = fs_nres g.
+Proof.
+  intros g cl. unfold coll_all_levels, coll_levels, fs_prot_levels, fs_nres, prot_ok.
+  rewrite app_length, cf_levels_length.
+  destruct (fg_proteins g); intro Hok; [|cbn [length]; lia].
+  destruct (Hok eq_refl) as [_ Hpr]. destruct (fc_prot cl) as [[ids prows]|]; [cbn [length]; lia | congruence].
+Qed.
+
+Lemma coll_effect_p_noprot : forall g ap cl v n, fg_proteins g = false ->
+  coll_effect_p g ap cl v n = coll_effect g ap cl v n.
+Proof.
+  intros g ap cl v n H. unfold coll_effect_p, coll_effect, coll_all_levels, coll_levels, fs_prot_levels.
+  rewrite (fs_nres_noprot g H), H, app_nil_r. reflexivity.
+Qed.
+
+(* the result files a collection writes to, when k levels have result files *)
+Definition own_result_k (g : fs_cfg) (cl : fs_coll) (k : nat) (n : fname) : bool :=
+  match n with
+  | NResult p d lv => (p =? fc_pfx cl)%Z && (lv <? k) && (negb d || fg_decoys g)
+  | _ => false
+  end.
+Definition own_result (g : fs_cfg) (cl : fs_coll) (n : fname) : bool := own_result_k g cl (fg_nlevels g) n.
+Definition own_result_p (g : fs_cfg) (cl : fs_coll) (n : fname) : bool := own_result_k g cl (fs_nres g) n.
+
+Lemma own_result_p_noprot : forall g cl n, fg_proteins g = false -> own_result_p g cl n = own_result g cl n.
+Proof. intros g cl n H. unfold own_result_p, own_result. rewrite (fs_nres_noprot g H). reflexivity. Qed.
+
 Section Coll2.
 Variable g : fs_cfg.
 Hypothesis Hc : 0 < fg_c g.
-Hypothesis Hg : fg_glob g = false.
-Hypothesis Hp : fg_proteins g = false.
 Variable cl : fs_coll.
-Let pfx := fc_pfx cl.
-Let rows := fc_rows cl.
+Local Notation pfx := (fc_pfx cl).
 Local Notation ext := (fg_ext g).
 Local Notation nl := (fg_nlevels g).
-Let chunks := fs_chunk_rows g rows.
-Let names := fs_chunk_names g pfx rows.
-Let levels := cf_levels cf_row cf_score cf_lkey (fg_c g) (fg_dedup g) (fg_dedup g) (fg_nlevels g) rows.
 
 (* ---- phase A ---- *)
-Definition own_result (n : fname) : bool :=
-  match n with
-  | NResult p d lv => (p =? pfx)%Z && (lv <? nl) && (negb d || fg_decoys g)
-  | _ => false
-  end.
-
 Lemma exec_init_steps : forall l s, exists s1,
   cexec (flat_map (init_step g pfx) l) s = Some s1 /\
   forall n, cget s1 n =
@@ -660,35 +746,36 @@ Proof.
       destruct (fname_eqb (NResult pfx false x) n); cbn [orb]; destruct (existsb _ r); reflexivity.
 Qed.
 
-Lemma own_result_exists : forall n,
-  existsb (fun lv => fname_eqb (NResult pfx false lv) n || (fg_decoys g && fname_eqb (NResult pfx true lv) n)) (seq 0 nl)
-  = own_result n.
+Lemma own_result_exists : forall k n,
+  existsb (fun lv => fname_eqb (NResult pfx false lv) n || (fg_decoys g && fname_eqb (NResult pfx true lv) n)) (seq 0 k)
+  = own_result_k g cl k n.
 Proof.
-  intro n. destruct (own_result n) eqn:E.
-  - destruct n as [| | p d lv | | |]; try discriminate. cbn [own_result] in E.
+  intros k n. destruct (own_result_k g cl k n) eqn:E.
+  - destruct n as [| | p d lv | | |]; try discriminate. cbn [own_result_k] in E.
     apply andb_true_iff in E. destruct E as [E Ed]. apply andb_true_iff in E. destruct E as [Ep El].
     apply Z.eqb_eq in Ep. apply Nat.ltb_lt in El. subst p.
     apply existsb_exists. exists lv. split; [apply in_seq; lia|].
     destruct d; cbn [negb orb] in Ed.
     + rewrite Ed, fname_eqb_refl. cbn. apply orb_true_r.
     + rewrite fname_eqb_refl. reflexivity.
-  - destruct (existsb _ (seq 0 nl)) eqn:Ex; [|reflexivity].
+  - destruct (existsb _ (seq 0 k)) eqn:Ex; [|reflexivity].
     apply existsb_exists in Ex. destruct Ex as [lv [Hin Hx]]. apply in_seq in Hin.
     apply orb_true_iff in Hx. destruct Hx as [Hx|Hx].
-    + apply fname_eqb_eq in Hx. subst n. cbn [own_result negb orb] in E.
-      rewrite Z.eqb_refl in E. replace (lv <? nl) with true in E by (symmetry; apply Nat.ltb_lt; lia). discriminate.
-    + apply andb_true_iff in Hx. destruct Hx as [Hd Hx]. apply fname_eqb_eq in Hx. subst n. cbn [own_result negb orb] in E.
-      rewrite Z.eqb_refl, Hd in E. replace (lv <? nl) with true in E by (symmetry; apply Nat.ltb_lt; lia). discriminate.
+    + apply fname_eqb_eq in Hx. subst n. cbn [own_result_k negb orb] in E.
+      rewrite Z.eqb_refl in E. replace (lv <? k) with true in E by (symmetry; apply Nat.ltb_lt; lia). discriminate.
+    + apply andb_true_iff in Hx. destruct Hx as [Hd Hx]. apply fname_eqb_eq in Hx. subst n. cbn [own_result_k negb orb] in E.
+      rewrite Z.eqb_refl, Hd in E. replace (lv <? k) with true in E by (symmetry; apply Nat.ltb_lt; lia). discriminate.
 Qed.
 
-Lemma exec_inits : forall ap s, exists s1,
+(* result files of every level that has them (the protein level included) are created, header only *)
+Lemma exec_inits_p : forall ap s, exists s1,
   cexec (fs_result_inits g pfx ap) s = Some s1 /\
-  forall n, cget s1 n = if negb ap && own_result n then Some [] else cget s n.
+  forall n, cget s1 n = if negb ap && own_result_p g cl n then Some [] else cget s n.
 Proof.
   intros [|] s.
   - exists s. split; [reflexivity | intro n; reflexivity].
-  - rewrite (inits_eq g pfx Hp). destruct (exec_init_steps (seq 0 (fg_nlevels g)) s) as [s1 [He Hs1]].
-    exists s1. split; [exact He|]. intro n. rewrite Hs1. fold nl. rewrite own_result_exists. reflexivity.
+  - rewrite inits_eq_gen, res_levels_seq. destruct (exec_init_steps (seq 0 (fs_nres g)) s) as [s1 [He Hs1]].
+    exists s1. split; [exact He|]. intro n. rewrite Hs1, own_result_exists. reflexivity.
 Qed.
 
 (* ---- phase E over all levels ---- *)
@@ -776,7 +863,6 @@ Proof.
            destruct (assoc_lv lv' r); [|exact Hs1n]. unfold old_or_nil. rewrite Hs1n. reflexivity.
       * rewrite Hs1. replace (fname_eqb (NLevel lv ext) (NResult p d lv')) with false by reflexivity.
         apply andb_false_iff in Eo.
-        assert (N0 : fname_eqb (NResult pfx false lv) (NResult p d lv') && true = false \/ True) by (right; exact I).
         destruct (fname_eqb (NResult pfx false lv) (NResult p d lv')) eqn:E0.
         { apply fname_eqb_eq in E0. inversion E0; subst. destruct Eo as [Eo|Eo]; [rewrite Z.eqb_refl in Eo | cbn in Eo]; discriminate. }
         destruct (fname_eqb (NResult pfx true lv) (NResult p d lv')) eqn:E1; cbn [andb]; [|reflexivity].
@@ -832,11 +918,13 @@ Proof.
     congruence.
 Qed.
 
+Lemma map_id_plain : forall l, map (fun p : crow => cf_id (fst p)) (fs_plain l) = map cf_id l.
+Proof. intro l. unfold fs_plain. rewrite map_map. reflexivity. Qed.
+
 Section Coll3.
 Variable g : fs_cfg.
 Hypothesis Hc : 0 < fg_c g.
 Hypothesis Hg : fg_glob g = false.
-Hypothesis Hp : fg_proteins g = false.
 Variable cl : fs_coll.
 Local Notation pfx := (fc_pfx cl).
 Local Notation rows := (fc_rows cl).
@@ -844,76 +932,132 @@ Local Notation ext := (fg_ext g).
 Local Notation nl := (fg_nlevels g).
 Local Notation chunks := (fs_chunk_rows g rows).
 Local Notation names := (fs_chunk_names g pfx rows).
-Local Notation levels := (cf_levels cf_row cf_score cf_lkey (fg_c g) (fg_dedup g) (fg_dedup g) (fg_nlevels g) rows).
 
-Theorem coll_exec : forall ap s,
-  (ap = true -> forall n, own_result g cl n = true -> cget s n <> None) ->
-  exists s', cexec (fs_coll_ops g ap cl) s = Some s' /\
-    forall n, cget s' n = coll_effect g ap cl (cget s) n.
+(* ---- the picked-protein step: the protein-level file is written from the peptide-level file — or the step raises,
+   when the recorded oracle value belongs to another peptide level ---- *)
+Lemma exec_prot_step : forall sD, prot_ok g cl ->
+  (forall lv, lv < nl -> cget sD (NLevel lv ext) = Some (fs_plain (nth lv (coll_levels g cl) []))) ->
+  if prot_key_ok g cl
+  then exists sP, cexec (fs_prot_ops g cl) sD = Some sP /\
+       (forall lv, lv < fs_nres g -> cget sP (NLevel lv ext) = Some (fs_plain (nth lv (coll_all_levels g cl) []))) /\
+       (forall n, (forall lv, lv < fs_nres g -> n <> NLevel lv ext) -> cget sP n = cget sD n)
+  else cexec (fs_prot_ops g cl) sD = None.
 Proof.
-  intros ap s Hap. rewrite (coll_ops_shape g ap cl Hg Hp). rewrite cexec_app.
-  destruct (exec_inits g Hc Hp cl ap s) as [sA [HeA HsA]]. rewrite HeA. rewrite cexec_app.
+  intros sD Hok HD.
+  assert (Hlen : length (coll_levels g cl) = nl) by apply cf_levels_length.
+  revert Hok. unfold prot_ok, prot_key_ok, fs_prot_ops, coll_all_levels, fs_prot_levels, fs_nres.
+  destruct (fg_proteins g); intro Hok.
+  - destruct (Hok eq_refl) as [Hnl Hpr]. destruct (fc_prot cl) as [[ids prows]|]; [|congruence].
+    assert (E : cexec [OWrite (NLevel nl ext) [NLevel 1 ext] (KProteins ids prows)] sD =
+                if fs_zlist_eqb (coll_pep_ids g cl) ids then Some (cset sD (NLevel nl ext) (fs_plain prows)) else None).
+    { cbn [exec exec_op fs_gets]. rewrite (HD 1 Hnl). cbn [capply]. rewrite map_id_plain. fold (coll_pep_ids g cl).
+      destruct (fs_zlist_eqb (coll_pep_ids g cl) ids); reflexivity. }
+    rewrite E. destruct (fs_zlist_eqb (coll_pep_ids g cl) ids); [|reflexivity].
+    eexists. split; [reflexivity|]. split.
+    + intros lv Hlv. rewrite fs_get_set. destruct (Nat.eq_dec lv nl) as [->|N].
+      * rewrite fname_eqb_refl. rewrite app_nth2 by lia. rewrite Hlen, Nat.sub_diag. reflexivity.
+      * replace (fname_eqb (NLevel nl ext) (NLevel lv ext)) with false by (symmetry; apply fname_eqb_neq; congruence).
+        rewrite app_nth1 by lia. apply HD. lia.
+    + intros n Hn. rewrite fs_get_set. replace (fname_eqb (NLevel nl ext) n) with false; [reflexivity|].
+      symmetry. apply fname_eqb_neq. intro H. apply (Hn nl); [lia | symmetry; exact H].
+  - exists sD. split; [reflexivity|]. rewrite app_nil_r. split; [exact HD | intros; reflexivity].
+Qed.
+
+(* one collection, with or without protein level, from ANY directory: if the recorded oracle value belongs to this run's
+   peptide level the operations succeed and end in [coll_effect_p]; otherwise the picked-protein step raises *)
+Theorem coll_exec_p : forall ap s, prot_ok g cl ->
+  (ap = true -> forall n, own_result_p g cl n = true -> cget s n <> None) ->
+  if prot_key_ok g cl
+  then exists s', cexec (fs_coll_ops g ap cl) s = Some s' /\
+         forall n, cget s' n = coll_effect_p g ap cl (cget s) n
+  else cexec (fs_coll_ops g ap cl) s = None.
+Proof.
+  intros ap s Hok Hap. rewrite (coll_ops_shape_g g ap cl Hg). rewrite cexec_app.
+  destruct (exec_inits_p g Hc cl ap s) as [sA [HeA HsA]]. rewrite HeA. rewrite cexec_app.
   destruct (exec_chunk_ops g Hc pfx rows sA) as [sB [HeB [HgB HsB]]]. rewrite HeB. rewrite cexec_app, cexec_app.
   destruct (exec_level_ops g Hc pfx rows sB HgB) as [sC [HeC [HlC HsC]]]. rewrite HeC.
   assert (HnotL : forall n, In n names -> forall lv, lv < nl -> n <> NLevel lv ext).
   { intros n Hn lv _ ->. apply (chunk_names_are_chunks g pfx rows) in Hn. discriminate. }
   destruct (exec_unlinks names sC (chunk_names_nodup g pfx rows)) as [sD [HeD HsD]].
   { intros n Hn. rewrite (HsC n (HnotL n Hn)). apply (cgets_present names sB _ HgB n Hn). }
-  rewrite HeD.
-  assert (Hlen : length levels = nl) by apply cf_levels_length.
-  (* the state before the last phase, on the names that matter *)
-  assert (HD_level : forall lv, lv < nl -> cget sD (NLevel lv ext) = Some (fs_plain (nth lv levels []))).
+  rewrite HeD. rewrite cexec_app.
+  pose proof (nres_ge g) as Hnres.
+  (* the state before the protein step, on the names that matter *)
+  assert (HD_level : forall lv, lv < nl -> cget sD (NLevel lv ext) = Some (fs_plain (nth lv (coll_levels g cl) []))).
   { intros lv Hlv. rewrite HsD, fs_mem_chunk_names. apply HlC; exact Hlv. }
-  assert (HD_res : forall p d lv, cget sD (NResult p d lv) =
-            if negb ap && own_result g cl (NResult p d lv) then Some [] else cget s (NResult p d lv)).
-  { intros p d lv. rewrite HsD, fs_mem_chunk_names, HsC by (intros lv' _; discriminate).
-    rewrite HsB by (rewrite fs_mem_chunk_names; reflexivity). apply HsA. }
-  destruct (exec_result_steps g Hc cl (combine (seq 0 nl) levels) sD) as [sE [HeE HsE]].
+  assert (HD_other : forall n, (forall lv, lv < nl -> n <> NLevel lv ext) ->
+            cget sD n = if fs_mem n names then None else if negb ap && own_result_p g cl n then Some [] else cget s n).
+  { intros n Hn. rewrite HsD. destruct (fs_mem n names) eqn:E; [reflexivity|].
+    rewrite (HsC n Hn), (HsB n E). apply HsA. }
+  pose proof (exec_prot_step sD Hok HD_level) as HP.
+  destruct (prot_key_ok g cl); [|rewrite HP; reflexivity].
+  destruct HP as [sP [HeP [HP_level HP_other]]]. rewrite HeP.
+  assert (Hlen : length (coll_all_levels g cl) = fs_nres g) by (apply all_levels_length; exact Hok).
+  assert (HP_pre : forall n, (forall lv, lv < fs_nres g -> n <> NLevel lv ext) ->
+            cget sP n = if fs_mem n names then None else if negb ap && own_result_p g cl n then Some [] else cget s n).
+  { intros n Hn. rewrite (HP_other n Hn). apply HD_other. intros lv Hlv. apply Hn. lia. }
+  destruct (exec_result_steps g Hc cl (combine (seq 0 (fs_nres g)) (coll_all_levels g cl)) sP) as [sE [HeE HsE]].
   { apply nodup_fst_combine, seq_NoDup. }
-  { intros lv rws Hin. pose proof Hlen as Hlen'. set (L := levels) in Hin, Hlen'. rewrite <- Hlen' in Hin.
-    destruct (in_combine_seq_nth g Hc L [] 0 lv rws Hin) as [Hr ->].
-    rewrite Nat.sub_0_r. apply HD_level. lia. }
-  { intros lv rws d Hin Hd. pose proof Hlen as Hlen'. set (L := levels) in Hin, Hlen'. rewrite <- Hlen' in Hin.
-    destruct (in_combine_seq_nth g Hc L [] 0 lv rws Hin) as [Hr _]. rewrite Hlen' in Hr.
-    rewrite HD_res.
-    assert (Hown : own_result g cl (NResult pfx d lv) = true).
-    { cbn [own_result]. rewrite Z.eqb_refl. replace (lv <? nl) with true by (symmetry; apply Nat.ltb_lt; lia).
+  { intros lv rws Hin. rewrite <- Hlen in Hin.
+    destruct (in_combine_seq_nth g Hc (coll_all_levels g cl) [] 0 lv rws Hin) as [Hr ->].
+    rewrite Nat.sub_0_r. apply HP_level. lia. }
+  { intros lv rws d Hin Hd. rewrite <- Hlen in Hin.
+    destruct (in_combine_seq_nth g Hc (coll_all_levels g cl) [] 0 lv rws Hin) as [Hr _]. rewrite Hlen in Hr.
+    rewrite HP_pre by (intros; discriminate). rewrite fs_mem_chunk_names.
+    assert (Hown : own_result_p g cl (NResult pfx d lv) = true).
+    { unfold own_result_p. cbn [own_result_k]. rewrite Z.eqb_refl.
+      replace (lv <? fs_nres g) with true by (symmetry; apply Nat.ltb_lt; lia).
       destruct d; cbn; [apply Hd; reflexivity | reflexivity]. }
     rewrite Hown. destruct ap; cbn [negb andb]; [apply (Hap eq_refl); exact Hown | discriminate]. }
-  rewrite <- (result_ops_eq g pfx levels Hp) in HeE. exists sE. split; [exact HeE|].
-  assert (Hassoc : forall lv, assoc_lv lv (combine (seq 0 nl) levels) = if lv <? nl then Some (nth lv levels []) else None).
-  { intro lv. pose proof Hlen as Hlen'. set (L := levels) in *. rewrite <- Hlen'. rewrite assoc_combine_seq.
+  rewrite result_ops_eq_gen, res_levels_seq. exists sE. split; [exact HeE|].
+  assert (Hassoc : forall lv, assoc_lv lv (combine (seq 0 (fs_nres g)) (coll_all_levels g cl)) =
+                              if lv <? fs_nres g then Some (nth lv (coll_all_levels g cl) []) else None).
+  { intro lv. rewrite <- Hlen. rewrite assoc_combine_seq.
     cbn [Nat.leb andb Nat.add]. rewrite Nat.sub_0_r. reflexivity. }
-  intro n. rewrite HsE. unfold coll_effect.
+  assert (Hnown : forall n, is_result n = false -> own_result_p g cl n = false).
+  { intros n Hn. destruct n; try reflexivity. discriminate. }
+  intro n. rewrite HsE. unfold coll_effect_p.
   destruct n as [p i e | lv e | p d lv | p | p | z].
   - (* chunk files *)
-    rewrite HsD, fs_mem_chunk_names.
+    rewrite HP_pre by (intros; discriminate). rewrite fs_mem_chunk_names.
     destruct ((p =? pfx)%Z && Bool.eqb e ext && (i <? length chunks)) eqn:E; [reflexivity|].
-    rewrite HsC by (intros lv' _; discriminate). rewrite HsB by (rewrite fs_mem_chunk_names; exact E).
-    rewrite HsA. cbn [own_result]. rewrite andb_false_r. reflexivity.
+    rewrite Hnown by reflexivity. rewrite andb_false_r. reflexivity.
   - (* level files *)
     rewrite Hassoc. destruct (Bool.eqb e ext) eqn:Ee; cbn [andb].
-    + destruct (lv <? nl) eqn:El; [reflexivity|].
+    + destruct (lv <? fs_nres g) eqn:El; [reflexivity|].
       apply Bool.eqb_prop in Ee. subst e. apply Nat.ltb_ge in El.
-      rewrite HsD, fs_mem_chunk_names, HsC by (intros lv' Hlv' H; inversion H; lia).
-      rewrite HsB by (rewrite fs_mem_chunk_names; reflexivity). rewrite HsA. cbn [own_result]. rewrite andb_false_r. reflexivity.
-    + rewrite HsD, fs_mem_chunk_names, HsC by (intros lv' Hlv' H; inversion H; subst; rewrite eqb_reflx in Ee; discriminate).
-      rewrite HsB by (rewrite fs_mem_chunk_names; reflexivity). rewrite HsA. cbn [own_result]. rewrite andb_false_r. reflexivity.
+      rewrite HP_pre by (intros lv' Hlv' H; inversion H; lia). rewrite fs_mem_chunk_names.
+      rewrite Hnown by reflexivity. rewrite andb_false_r. reflexivity.
+    + rewrite HP_pre by (intros lv' Hlv' H; inversion H; subst; rewrite eqb_reflx in Ee; discriminate).
+      rewrite fs_mem_chunk_names. rewrite Hnown by reflexivity. rewrite andb_false_r. reflexivity.
   - (* result files *)
-    rewrite Hassoc. unfold old_or_nil. rewrite HD_res. cbn [own_result].
+    rewrite Hassoc. unfold old_or_nil. rewrite HP_pre by (intros; discriminate). rewrite fs_mem_chunk_names.
+    unfold own_result_p. cbn [own_result_k].
     destruct ((p =? pfx)%Z) eqn:Ep; cbn [andb]; [|rewrite andb_false_r; reflexivity].
-    destruct (lv <? nl) eqn:El; cbn [andb].
+    destruct (lv <? fs_nres g) eqn:El; cbn [andb].
     + destruct (negb d || fg_decoys g) eqn:Ed; cbn [andb]; [|rewrite andb_false_r; reflexivity].
       destruct ap; cbn [negb andb]; reflexivity.
     + destruct (negb d || fg_decoys g); rewrite andb_false_r; reflexivity.
-  - rewrite HsD, fs_mem_chunk_names, HsC by (intros lv' _; discriminate).
-    rewrite HsB by (rewrite fs_mem_chunk_names; reflexivity). rewrite HsA. cbn [own_result]. rewrite andb_false_r. reflexivity.
-  - rewrite HsD, fs_mem_chunk_names, HsC by (intros lv' _; discriminate).
-    rewrite HsB by (rewrite fs_mem_chunk_names; reflexivity). rewrite HsA. cbn [own_result]. rewrite andb_false_r. reflexivity.
-  - rewrite HsD, fs_mem_chunk_names, HsC by (intros lv' _; discriminate).
-    rewrite HsB by (rewrite fs_mem_chunk_names; reflexivity). rewrite HsA. cbn [own_result]. rewrite andb_false_r. reflexivity.
+  - rewrite HP_pre by (intros; discriminate). rewrite fs_mem_chunk_names, Hnown by reflexivity. rewrite andb_false_r. reflexivity.
+  - rewrite HP_pre by (intros; discriminate). rewrite fs_mem_chunk_names, Hnown by reflexivity. rewrite andb_false_r. reflexivity.
+  - rewrite HP_pre by (intros; discriminate). rewrite fs_mem_chunk_names, Hnown by reflexivity. rewrite andb_false_r. reflexivity.
 Qed.
 End Coll3.
+
+(* the statement for runs without protein level (a corollary) *)
+Theorem coll_exec : forall g, 0 < fg_c g -> fg_glob g = false -> fg_proteins g = false ->
+  forall cl ap s,
+  (ap = true -> forall n, own_result g cl n = true -> cget s n <> None) ->
+  exists s', cexec (fs_coll_ops g ap cl) s = Some s' /\
+    forall n, cget s' n = coll_effect g ap cl (cget s) n.
+Proof.
+  intros g Hc Hg Hp cl ap s Hap.
+  pose proof (coll_exec_p g Hc Hg cl ap s (prot_ok_noprot g cl Hp)) as H.
+  rewrite (prot_key_ok_noprot g cl Hp) in H.
+  destruct H as [s' [He Hs']].
+  { intros E n Hn. apply (Hap E). rewrite <- (own_result_p_noprot g cl n Hp). exact Hn. }
+  exists s'. split; [exact He|]. intro n. rewrite Hs'. apply coll_effect_p_noprot. exact Hp.
+Qed.
 
 (* ------------------------------------------------------------------ part 6 *)
 
@@ -925,6 +1069,14 @@ Fixpoint run_effect (g : fs_cfg) (seen : bool) (cls : list fs_coll) (v : fview) 
                  (coll_effect g (fg_append g || (seen && (fc_pfx cl =? 0)%Z)) cl v)
   end.
 
+(* ... of a run that may have a protein level *)
+Fixpoint run_effect_p (g : fs_cfg) (seen : bool) (cls : list fs_coll) (v : fview) : fview :=
+  match cls with
+  | [] => v
+  | cl :: r => run_effect_p g (seen || (fc_pfx cl =? 0)%Z) r
+                 (coll_effect_p g (fg_append g || (seen && (fc_pfx cl =? 0)%Z)) cl v)
+  end.
+
 Lemma coll_effect_ext : forall g ap cl v v', (forall n, v n = v' n) -> forall n, coll_effect g ap cl v n = coll_effect g ap cl v' n.
 Proof. intros g ap cl v v' H n. unfold coll_effect. destruct n; rewrite ?H; reflexivity. Qed.
 
@@ -934,16 +1086,74 @@ Proof.
   apply IH. apply coll_effect_ext. exact H.
 Qed.
 
+Lemma coll_effect_p_ext : forall g ap cl v v', (forall n, v n = v' n) -> forall n, coll_effect_p g ap cl v n = coll_effect_p g ap cl v' n.
+Proof. intros g ap cl v v' H n. unfold coll_effect_p. destruct n; rewrite ?H; reflexivity. Qed.
+
+Lemma run_effect_p_ext : forall g cls seen v v', (forall n, v n = v' n) -> forall n, run_effect_p g seen cls v n = run_effect_p g seen cls v' n.
+Proof.
+  intros g cls; induction cls as [|cl r IH]; intros seen v v' H n; cbn [run_effect_p]; [apply H|].
+  apply IH. apply coll_effect_p_ext. exact H.
+Qed.
+
+Lemma run_effect_p_noprot : forall g, fg_proteins g = false ->
+  forall cls seen v n, run_effect_p g seen cls v n = run_effect g seen cls v n.
+Proof.
+  intros g Hp cls; induction cls as [|cl r IH]; intros seen v n; cbn [run_effect_p run_effect]; [reflexivity|].
+  rewrite IH. apply run_effect_ext. intro m. apply coll_effect_p_noprot. exact Hp.
+Qed.
+
 Definition results0_present (g : fs_cfg) (v : fview) : Prop :=
   forall d lv, lv < fg_nlevels g -> (d = true -> fg_decoys g = true) -> v (NResult 0%Z d lv) <> None.
+Definition results0_present_p (g : fs_cfg) (v : fview) : Prop :=
+  forall d lv, lv < fs_nres g -> (d = true -> fg_decoys g = true) -> v (NResult 0%Z d lv) <> None.
 
-Lemma own_result_inv : forall g cl n, own_result g cl n = true ->
-  exists d lv, n = NResult (fc_pfx cl) d lv /\ lv < fg_nlevels g /\ (d = true -> fg_decoys g = true).
+Lemma own_result_k_inv : forall g cl k n, own_result_k g cl k n = true ->
+  exists d lv, n = NResult (fc_pfx cl) d lv /\ lv < k /\ (d = true -> fg_decoys g = true).
 Proof.
-  intros g cl n H. destruct n as [| | p d lv | | |]; try discriminate. cbn [own_result] in H.
+  intros g cl k n H. destruct n as [| | p d lv | | |]; try discriminate. cbn [own_result_k] in H.
   apply andb_true_iff in H. destruct H as [H Hd]. apply andb_true_iff in H. destruct H as [Hp Hl].
   apply Z.eqb_eq in Hp. apply Nat.ltb_lt in Hl. subst p. exists d, lv. repeat split; [exact Hl|].
   intros ->. cbn in Hd. exact Hd.
+Qed.
+
+Lemma own_result_inv : forall g cl n, own_result g cl n = true ->
+  exists d lv, n = NResult (fc_pfx cl) d lv /\ lv < fg_nlevels g /\ (d = true -> fg_decoys g = true).
+Proof. intros g cl n H. apply (own_result_k_inv g cl (fg_nlevels g) n H). Qed.
+
+(* all collections, with or without protein level: the run succeeds iff every recorded oracle value belongs to the
+   peptide level its collection computes in this run, and then ends in [run_effect_p] *)
+Theorem colls_exec_p : forall g, 0 < fg_c g -> fg_glob g = false -> fg_append g = false ->
+  forall cls seen s, (forall cl, In cl cls -> prot_ok g cl) ->
+  (seen = true -> results0_present_p g (cget s)) ->
+  if forallb (prot_key_ok g) cls
+  then exists s', cexec (fs_colls_ops g seen cls) s = Some s' /\
+         forall n, cget s' n = run_effect_p g seen cls (cget s) n
+  else cexec (fs_colls_ops g seen cls) s = None.
+Proof.
+  intros g Hc Hg Ha cls; induction cls as [|cl r IH]; intros seen s Hok Hseen; cbn [fs_colls_ops run_effect_p forallb].
+  - exists s. split; [reflexivity | intro n; reflexivity].
+  - rewrite cexec_app. rewrite Ha. cbn [orb].
+    pose proof (coll_exec_p g Hc Hg cl (seen && (fc_pfx cl =? 0)%Z) s (Hok cl (or_introl eq_refl))) as H1.
+    assert (Hap1 : (seen && (fc_pfx cl =? 0)%Z)%bool = true ->
+                   forall n, own_result_p g cl n = true -> cget s n <> None).
+    { intros E n Hn. apply andb_true_iff in E. destruct E as [E1 E2]. apply Z.eqb_eq in E2.
+      destruct (own_result_k_inv g cl (fs_nres g) n Hn) as [d [lv [-> [Hlv Hd]]]]. rewrite E2. apply (Hseen E1 d lv Hlv Hd). }
+    specialize (H1 Hap1).
+    destruct (prot_key_ok g cl); cbn [andb]; [|rewrite H1; reflexivity].
+    destruct H1 as [s1 [He1 Hs1]]. rewrite He1.
+    pose proof (IH (seen || (fc_pfx cl =? 0)%Z)%bool s1) as H2.
+    assert (Hok2 : forall cl', In cl' r -> prot_ok g cl') by (intros cl' Hin; apply Hok; right; exact Hin).
+    assert (Hseen2 : (seen || (fc_pfx cl =? 0)%Z)%bool = true -> results0_present_p g (cget s1)).
+    { intros E d lv Hlv Hd. rewrite Hs1. unfold coll_effect_p.
+      destruct ((0 =? fc_pfx cl)%Z && (lv <? fs_nres g) && (negb d || fg_decoys g)) eqn:Eo; [discriminate|].
+      apply orb_true_iff in E. destruct E as [E|E]; [apply (Hseen E d lv Hlv Hd)|].
+      apply Z.eqb_eq in E. rewrite E in Eo. cbn [Z.eqb] in Eo.
+      replace (lv <? fs_nres g) with true in Eo by (symmetry; apply Nat.ltb_lt; exact Hlv).
+      destruct d; cbn in Eo; [rewrite (Hd eq_refl) in Eo|]; discriminate. }
+    specialize (H2 Hok2 Hseen2).
+    destruct (forallb (prot_key_ok g) r); [|exact H2].
+    destruct H2 as [s' [He Hs']].
+    exists s'. split; [exact He|]. intro n. rewrite Hs'. apply run_effect_p_ext. exact Hs1.
 Qed.
 
 Theorem colls_exec : forall g, 0 < fg_c g -> fg_glob g = false -> fg_append g = false -> fg_proteins g = false ->
@@ -951,25 +1161,45 @@ Theorem colls_exec : forall g, 0 < fg_c g -> fg_glob g = false -> fg_append g = 
   exists s', cexec (fs_colls_ops g seen cls) s = Some s' /\
     forall n, cget s' n = run_effect g seen cls (cget s) n.
 Proof.
-  intros g Hc Hg Ha Hp cls; induction cls as [|cl r IH]; intros seen s Hseen; cbn [fs_colls_ops run_effect].
-  - exists s. split; [reflexivity | intro n; reflexivity].
-  - rewrite cexec_app. rewrite Ha. cbn [orb].
-    destruct (coll_exec g Hc Hg Hp cl (seen && (fc_pfx cl =? 0)%Z) s) as [s1 [He1 Hs1]].
-    { intros E n Hn. apply andb_true_iff in E. destruct E as [E1 E2]. apply Z.eqb_eq in E2.
-      destruct (own_result_inv g cl n Hn) as [d [lv [-> [Hlv Hd]]]]. rewrite E2. apply (Hseen E1 d lv Hlv Hd). }
-    rewrite He1.
-    destruct (IH (seen || (fc_pfx cl =? 0)%Z) s1) as [s' [He Hs']].
-    { intros E d lv Hlv Hd. rewrite Hs1. unfold coll_effect.
-      destruct ((0 =? fc_pfx cl)%Z && (lv <? fg_nlevels g) && (negb d || fg_decoys g)) eqn:Eo; [discriminate|].
-      apply orb_true_iff in E. destruct E as [E|E]; [apply (Hseen E d lv Hlv Hd)|].
-      apply Z.eqb_eq in E. rewrite E in Eo. cbn [Z.eqb] in Eo.
-      replace (lv <? fg_nlevels g) with true in Eo by (symmetry; apply Nat.ltb_lt; exact Hlv).
-      destruct d; cbn in Eo; [rewrite (Hd eq_refl) in Eo|]; discriminate. }
-    exists s'. split; [exact He|]. intro n. rewrite Hs'. apply run_effect_ext. exact Hs1.
+  intros g Hc Hg Ha Hp cls seen s Hseen.
+  pose proof (colls_exec_p g Hc Hg Ha cls seen s) as H.
+  replace (forallb (prot_key_ok g) cls) with true in H
+    by (symmetry; apply forallb_forall; intros cl _; apply prot_key_ok_noprot; exact Hp).
+  destruct H as [s' [He Hs']].
+  { intros cl _. apply prot_ok_noprot. exact Hp. }
+  { intros E d lv Hlv Hd. rewrite (fs_nres_noprot g Hp) in Hlv. apply (Hseen E d lv Hlv Hd). }
+  exists s'. split; [exact He|]. intro n. rewrite Hs'. apply run_effect_p_noprot. exact Hp.
 Qed.
 
-(* refinement: the run, executed operation by operation on ANY directory, ends — always successfully — in the
-   directory described by the abstract effect *)
+(* refinement: the run, executed operation by operation on ANY directory, ends in the directory described by the
+   abstract effect — successfully if (and only if) every recorded picked-protein value belongs to this run *)
+Theorem run_exec_p : forall g s, run_okp g -> 0 < fg_c g ->
+  if forallb (prot_key_ok g) (fg_colls g)
+  then exists s', fs_run g None s = Some s' /\ forall n, cget s' n = run_effect_p g false (fg_colls g) (cget s) n
+  else fs_run g None s = None.
+Proof.
+  intros g s [Hg [Ha Hok]] Hc. unfold fs_run, fs_run_ops.
+  apply (colls_exec_p g Hc Hg Ha (fg_colls g) false s Hok). discriminate.
+Qed.
+
+Corollary run_exec_keys : forall g s, run_okp g -> 0 < fg_c g ->
+  (forall cl, In cl (fg_colls g) -> prot_key_ok g cl = true) ->
+  exists s', fs_run g None s = Some s' /\ forall n, cget s' n = run_effect_p g false (fg_colls g) (cget s) n.
+Proof.
+  intros g s Hok Hc Hk. pose proof (run_exec_p g s Hok Hc) as H.
+  replace (forallb (prot_key_ok g) (fg_colls g)) with true in H; [exact H|].
+  symmetry. apply forallb_forall. exact Hk.
+Qed.
+
+(* a recorded oracle value whose key is not the peptide level of this run: the picked-protein step raises, from any directory *)
+Corollary run_key_mismatch : forall g s cl, run_okp g -> 0 < fg_c g ->
+  In cl (fg_colls g) -> prot_key_ok g cl = false -> fs_run g None s = None.
+Proof.
+  intros g s cl Hok Hc Hin Hk. pose proof (run_exec_p g s Hok Hc) as H.
+  destruct (forallb (prot_key_ok g) (fg_colls g)) eqn:E; [|exact H].
+  rewrite forallb_forall in E. rewrite (E cl Hin) in Hk. discriminate.
+Qed.
+
 Theorem run_exec : forall g s, run_ok g -> 0 < fg_c g ->
   exists s', fs_run g None s = Some s' /\ forall n, cget s' n = run_effect g false (fg_colls g) (cget s) n.
 Proof.
@@ -1004,4 +1234,110 @@ Proof.
   unfold coll_effect. rewrite Z.eqb_refl. replace (lv <? fg_nlevels g) with true by (symmetry; apply Nat.ltb_lt; exact Hlv).
   cbn [andb negb orb app]. rewrite (side_confidence _ _ _ _ lv Hlv). cbn [fst snd]. split; [reflexivity|].
   intros Hd. rewrite Hd. reflexivity.
+Qed.
+
+(* the protein analogue: in a one-collection run with protein level whose recorded oracle value (ids, prows) is keyed by
+   this run's peptide level, the protein-level result files hold exactly the oracle's rows, split into targets and decoys,
+   with the q-values of cf_qvalues; the protein-level file is gone; the other levels are the outputs of the C03 model *)
+Theorem run_single_results_p : forall g cl ids prows s, run_okp g -> 0 < fg_c g -> fg_colls g = [cl] ->
+  fg_proteins g = true -> fc_prot cl = Some (ids, prows) -> ids = coll_pep_ids g cl ->
+  exists s', fs_run g None s = Some s' /\
+    cget s' (NResult (fc_pfx cl) false (fg_nlevels g)) = Some (side false prows) /\
+    (fg_decoys g = true -> cget s' (NResult (fc_pfx cl) true (fg_nlevels g)) = Some (side true prows)) /\
+    cget s' (NLevel (fg_nlevels g) (fg_ext g)) = None /\
+    forall lv, lv < fg_nlevels g ->
+      cget s' (NResult (fc_pfx cl) false lv)
+        = Some (fst (nth lv (cf_confidence (fg_c g) (fg_dedup g) (fg_nlevels g) (fc_rows cl)) ([], []))) /\
+      (fg_decoys g = true ->
+       cget s' (NResult (fc_pfx cl) true lv)
+        = Some (snd (nth lv (cf_confidence (fg_c g) (fg_dedup g) (fg_nlevels g) (fc_rows cl)) ([], [])))).
+Proof.
+  intros g cl ids prows s Hok Hc Hcl Hp Hpr Hk.
+  destruct (run_exec_keys g s Hok Hc) as [s' [He Hs']].
+  { rewrite Hcl. intros cl' [<-|[]]. apply prot_key_ok_iff. intros _ ids' prows' E.
+    rewrite Hpr in E. inversion E; subst. reflexivity. }
+  exists s'. split; [exact He|]. destruct Hok as [_ [Ha _]].
+  assert (Hall : coll_all_levels g cl = coll_levels g cl ++ [prows])
+    by (unfold coll_all_levels, fs_prot_levels; rewrite Hp, Hpr; reflexivity).
+  assert (Hlen : length (coll_levels g cl) = fg_nlevels g) by apply cf_levels_length.
+  assert (Hnres : fs_nres g = S (fg_nlevels g)) by (unfold fs_nres; rewrite Hp; reflexivity).
+  assert (Hnthp : nth (fg_nlevels g) (coll_all_levels g cl) [] = prows).
+  { rewrite Hall, app_nth2 by lia. rewrite Hlen, Nat.sub_diag. reflexivity. }
+  assert (Hlt : (fg_nlevels g <? S (fg_nlevels g)) = true) by (apply Nat.ltb_lt; lia).
+  assert (Heff : forall n, cget s' n = coll_effect_p g false cl (cget s) n).
+  { intro n. rewrite Hs', Hcl. cbn [run_effect_p]. rewrite Ha. reflexivity. }
+  split; [|split; [|split]].
+  - rewrite Heff. unfold coll_effect_p. rewrite Z.eqb_refl, Hnres, Hlt. cbn [andb negb orb app]. rewrite Hnthp. reflexivity.
+  - intro Hd. rewrite Heff. unfold coll_effect_p. rewrite Z.eqb_refl, Hnres, Hlt, Hd. cbn [andb negb orb app]. rewrite Hnthp. reflexivity.
+  - rewrite Heff. unfold coll_effect_p. rewrite eqb_reflx, Hnres, Hlt. reflexivity.
+  - intros lv Hlv. rewrite !Heff. unfold coll_effect_p. rewrite Z.eqb_refl, Hnres.
+    replace (lv <? S (fg_nlevels g)) with true by (symmetry; apply Nat.ltb_lt; lia).
+    cbn [andb negb orb app]. rewrite Hall, app_nth1 by lia. unfold coll_levels.
+    rewrite (side_confidence _ _ _ _ lv Hlv). cbn [fst snd]. split; [reflexivity|].
+    intros Hd. rewrite Hd. reflexivity.
+Qed.
+
+(* ---- switching the protein level on changes nothing but the protein-level files ---- *)
+Definition fs_noprot (g : fs_cfg) : fs_cfg :=
+  {| fg_ext := fg_ext g; fg_c := fg_c g; fg_dedup := fg_dedup g; fg_nlevels := fg_nlevels g; fg_decoys := fg_decoys g;
+     fg_append := fg_append g; fg_glob := fg_glob g; fg_proteins := false; fg_colls := fg_colls g |}.
+
+(* the names of the protein level: its level file and its result files (of any prefix) *)
+Definition prot_name (g : fs_cfg) (n : fname) : bool :=
+  match n with
+  | NLevel lv e => Bool.eqb e (fg_ext g) && Nat.eqb lv (fg_nlevels g)
+  | NResult _ _ lv => Nat.eqb lv (fg_nlevels g)
+  | _ => false
+  end.
+
+Lemma ltb_nres_other : forall g lv, lv <> fg_nlevels g -> (lv <? fs_nres g) = (lv <? fg_nlevels g).
+Proof.
+  intros g lv N. unfold fs_nres. destruct (fg_proteins g); [|reflexivity].
+  destruct (lv <? S (fg_nlevels g)) eqn:A, (lv <? fg_nlevels g) eqn:B; try reflexivity.
+  - apply Nat.ltb_lt in A. apply Nat.ltb_ge in B. lia.
+  - apply Nat.ltb_ge in A. apply Nat.ltb_lt in B. lia.
+Qed.
+
+Lemma coll_effect_p_other : forall g ap cl v v' n, prot_name g n = false -> v n = v' n ->
+  coll_effect_p g ap cl v n = coll_effect g ap cl v' n.
+Proof.
+  intros g ap cl v v' n Hn Hv. unfold coll_effect_p, coll_effect.
+  destruct n as [p i e | lv e | p d lv | p | p | z]; rewrite <- ?Hv; try reflexivity.
+  - cbn [prot_name] in Hn. destruct (Bool.eqb e (fg_ext g)); cbn [andb] in *; [|reflexivity].
+    apply Nat.eqb_neq in Hn. rewrite (ltb_nres_other g lv Hn). reflexivity.
+  - cbn [prot_name] in Hn. apply Nat.eqb_neq in Hn. rewrite (ltb_nres_other g lv Hn).
+    destruct ((p =? fc_pfx cl)%Z && (lv <? fg_nlevels g) && (negb d || fg_decoys g)) eqn:Eo; [|reflexivity].
+    apply andb_true_iff in Eo. destruct Eo as [Eo _]. apply andb_true_iff in Eo. destruct Eo as [_ El]. apply Nat.ltb_lt in El.
+    unfold coll_all_levels. rewrite app_nth1 by (unfold coll_levels; rewrite cf_levels_length; exact El). reflexivity.
+Qed.
+
+Lemma run_effect_p_other : forall g cls seen v v' n, prot_name g n = false -> v n = v' n ->
+  run_effect_p g seen cls v n = run_effect g seen cls v' n.
+Proof.
+  intros g cls; induction cls as [|cl r IH]; intros seen v v' n Hn Hv; cbn [run_effect_p run_effect]; [exact Hv|].
+  apply IH; [exact Hn | apply coll_effect_p_other; assumption].
+Qed.
+
+Lemma run_effect_noprot_cfg : forall g cls seen v n, run_effect (fs_noprot g) seen cls v n = run_effect g seen cls v n.
+Proof.
+  intros g cls; induction cls as [|cl r IH]; intros seen v n; cbn [run_effect]; [reflexivity|].
+  rewrite IH. reflexivity.
+Qed.
+
+Lemma run_ok_noprot : forall g, run_okp g -> run_ok (fs_noprot g).
+Proof. intros g [Hg [Ha _]]. split; [exact Hg|]. split; [exact Ha | reflexivity]. Qed.
+
+(* the run with protein level and the same run without it — from the same, arbitrary directory — both succeed and end in
+   directories that agree on every name other than the protein-level file and the protein-level result files: in
+   particular the result files of the PSM, peptide and other rollup levels are the same *)
+Theorem run_proteins_other_files : forall g s, run_okp g -> 0 < fg_c g ->
+  (forall cl, In cl (fg_colls g) -> prot_key_ok g cl = true) ->
+  exists s' s0, fs_run g None s = Some s' /\ fs_run (fs_noprot g) None s = Some s0 /\
+    forall n, prot_name g n = false -> cget s' n = cget s0 n.
+Proof.
+  intros g s Hok Hc Hk. destruct (run_exec_keys g s Hok Hc Hk) as [s' [He Hs']].
+  destruct (run_exec (fs_noprot g) s (run_ok_noprot g Hok) Hc) as [s0 [He0 Hs0]].
+  exists s', s0. split; [exact He|]. split; [exact He0|]. intros n Hn. rewrite Hs', Hs0.
+  change (fg_colls (fs_noprot g)) with (fg_colls g). rewrite run_effect_noprot_cfg.
+  apply run_effect_p_other; [exact Hn | reflexivity].
 Qed.
